@@ -80,6 +80,28 @@ pub fn wal_name_stub(_f: &str) -> String {
     String::from(".w")
 }
 
+/// Replaces `std::vec::from_elem` (what `vec![x; n]` expands to): same content,
+/// but the heap object has the fixed capacity 8 instead of a symbolic size
+/// (symbolic-size objects force CBMC into its array theory and exhausted memory
+/// in the recovery harnesses). Bound, part of the claim: n <= 8.
+pub fn from_elem_stub8<T: Clone>(elem: T, n: usize) -> Vec<T> {
+    kani::assume(n <= 8);
+    let mut v: Vec<T> = Vec::with_capacity(8);
+    unsafe {
+        let p = v.as_mut_ptr();
+        if 0 < n { p.add(0).write(elem.clone()); }
+        if 1 < n { p.add(1).write(elem.clone()); }
+        if 2 < n { p.add(2).write(elem.clone()); }
+        if 3 < n { p.add(3).write(elem.clone()); }
+        if 4 < n { p.add(4).write(elem.clone()); }
+        if 5 < n { p.add(5).write(elem.clone()); }
+        if 6 < n { p.add(6).write(elem.clone()); }
+        if 7 < n { p.add(7).write(elem.clone()); }
+        v.set_len(n);
+    }
+    v
+}
+
 /// `unwrap` without Debug-formatting the error.
 pub fn ok<T>(r: Result<T, DbError>) -> T {
     match r {
